@@ -29,6 +29,11 @@ def get_fb(f, drop_self=True):
     if not all([isinstance(a, str) for a in ret.args]):
         raise TypeError('does not support anonymous tuple arguments'
                         ' or any other strange args for that matter.')
+    code = getattr(getattr(f, '__func__', f), '__code__', None)
+    if getattr(code, 'co_posonlyargcount', 0):
+        # every argument is injected by name, which a positional-only
+        # parameter can never accept
+        raise TypeError('does not support positional-only arguments: %r' % (f,))
     if drop_self and isinstance(f, types.MethodType):
         ret.args = ret.args[1:]  # discard "self" on methods
     return ret
